@@ -3,6 +3,7 @@ package bt
 import (
 	"encoding/json"
 	"errors"
+	"math"
 
 	"github.com/libsv/go-bt/v2/bscript"
 )
@@ -154,17 +155,25 @@ func (o *nodeOutputJSON) fromOutput(out *Output) error {
 }
 
 func (o *nodeOutputJSON) toOutput() (*Output, error) {
+	if o == nil || o.ScriptPubKey == nil {
+		return nil, errors.New("output has no scriptPubKey")
+	}
 	out := &Output{}
 	s, err := bscript.NewFromHexString(o.ScriptPubKey.Hex)
 	if err != nil {
 		return nil, err
 	}
-	out.Satoshis = uint64(o.Value * 100000000)
+	// value is a decimal rendering of an integer number of satoshis: the
+	// product is only approximately integral and has to be rounded, not cut.
+	out.Satoshis = uint64(math.Round(o.Value * 100000000))
 	out.LockingScript = s
 	return out, nil
 }
 
 func (i *nodeInputJSON) toInput() (*Input, error) {
+	if i == nil || i.ScriptSig == nil {
+		return nil, errors.New("input has no scriptSig")
+	}
 	input := &Input{}
 	s, err := bscript.NewFromHexString(i.ScriptSig.Hex)
 	if err != nil {
@@ -182,7 +191,12 @@ func (i *nodeInputJSON) toInput() (*Input, error) {
 }
 
 func (i *nodeInputJSON) fromInput(input *Input) error {
-	asm, err := input.UnlockingScript.ToASM()
+	// An input that has not been signed yet has no unlocking script.
+	unlockingScript := input.UnlockingScript
+	if unlockingScript == nil {
+		unlockingScript = &bscript.Script{}
+	}
+	asm, err := unlockingScript.ToASM()
 	if err != nil {
 		return err
 	}
@@ -192,7 +206,7 @@ func (i *nodeInputJSON) fromInput(input *Input) error {
 		Hex string `json:"hex"`
 	}{
 		Asm: asm,
-		Hex: input.UnlockingScript.String(),
+		Hex: unlockingScript.String(),
 	}
 
 	i.Vout = input.PreviousTxOutIndex
